@@ -3,6 +3,7 @@ package verifharness
 import (
 	"bytes"
 	"math"
+	"os"
 
 	"pgregory.net/rapid"
 )
@@ -58,6 +59,8 @@ func (p *Profile) init() {
 		}
 	}
 }
+
+var thoroughTier = os.Getenv("VERIF_TIER") == "thorough"
 
 type genState struct {
 	prios map[string]int32 // generator's own view: "coll\x00key" -> last priority drawn (monotone mode)
@@ -354,7 +357,11 @@ func GenCase(p *Profile) *rapid.Generator[Case] {
 				}
 			}
 		}
-		n := rapid.IntRange(p.MinOps, p.MaxOps).Draw(t, "nops")
+		maxOps := p.MaxOps
+		if thoroughTier && uni(t, 8, "long") == 0 {
+			maxOps *= 5 // the thorough tier also explores long histories (deeper trees, more versions)
+		}
+		n := rapid.IntRange(p.MinOps, maxOps).Draw(t, "nops")
 		for i := 0; i < n; i++ {
 			gs.step = i + 16
 			k := p.drawKind(t)
